@@ -146,6 +146,15 @@ func VerifSQLPassOn(input string, flags int) VerifSQLPass {
 	return p
 }
 
+// VerifSQLBlacklisted asks the real blacklist() whether a fingerprint string
+// is listed (fresh state; nothing else is evaluated).
+func VerifSQLBlacklisted(fingerprint string) bool {
+	s := new(sqliState)
+	sqliInit(s, "", 0)
+	s.fingerprint = fingerprint
+	return s.blacklist()
+}
+
 // VerifSQLKeywords returns a copy of the keyword / fingerprint table.
 func VerifSQLKeywords() map[string]byte {
 	out := make(map[string]byte, len(sqlKeywords))
